@@ -7,7 +7,7 @@ from harness import gen as G
 from harness import htaio
 from harness.props import common as C
 
-N_CASES = {"quick": 150, "thorough": 2400}
+N_CASES = {"quick": 240, "thorough": 2400}
 SHRINK = True
 KERNEL_CATS = {"kernel", "Kernel", "gpu_memset", "Memset", "gpu_memcpy", "Memcpy", "mtia_ccp_events"}
 ASSUMPTIONS = [
